@@ -17,7 +17,8 @@ a cells, a child space or a reference - in these cases the model is asked the op
 state is unchanged.  `new_cells` sends the name given AND the name of the formula; the model applies the naming rule
 (`St.newCellsNamed`); references handed to `new_space(refs=...)` travel with the operation.
 
-Vocabulary not in the model (object-valued references and their relative rebinding, renaming of spaces): the
+`space.rename(name)` is the model's `renamespace` (Struct/MechRename.lean).
+Vocabulary not in the model (object-valued references and their relative rebinding): the
 correspondence of a history ends at the first such edit that the implementation accepts.  It also ends, without a
 report of its own, at an edit that is an instance of a known finding on which the model (which describes the repaired
 code) and the unchanged code differ - recognised on the implementation's state alone (`struct_api_gen`), and reported
@@ -206,6 +207,11 @@ class MechCorr:
                 f = ["delcells", op[1], op[2]]
             elif kind == "rename_cells":
                 f = ["rename", op[1], op[2], op[3]]
+            elif kind == "rename_space":
+                # `space.rename(name)` (`St.renameSpace`, Struct/MechRename.lean): one relabelling of every path the
+                # structural state holds; the state after it (ids from the containers, direct bases, linearisations
+                # read through the inheritance graph) is compared like after every other edit
+                f = ["renamespace", op[1], op[2]]
             elif kind == "add_bases":
                 f = ["addbases", op[1], self.csv(op[2])]
             elif kind == "remove_bases":
@@ -269,7 +275,12 @@ class MechCorr:
     def finish(self, out, hist_of, stats=None):
         if len(self.lines) <= 1:
             return
-        got = core.run_driver("smech", self.lines)
+        # one long-lived driver process (every history starts with `reset`); the first conversations go through
+        # `run_driver`, which keeps them as samples for the evidence file
+        if len(core.DRIVER_SAMPLE) < core.DRIVER_SAMPLE_MAX_CONV:
+            got = core.run_driver("smech", self.lines)
+        else:
+            got = core.DriverProc.ask("smech", self.lines)
         for i, (line, exp, g) in enumerate(zip(self.lines, self.expect, got)):
             if exp is None:
                 continue
